@@ -28,45 +28,19 @@ Check C19_exit0_iff_all_ok : forall eval m of stdin flags prog,
 Print Assumptions C19_exit0_iff_all_ok.
 
 (* Exit 0 comes with exactly one outputs object (stdout without -o, the file with -o, never
-   both); any other exit comes with no object at all.  Exclusion: known finding F34. *)
+   both); any other exit comes with no object at all — in every mode, including the no-script
+   error exit (repo fix 43a3324 closed known finding F34: `-o FILE` used to receive `{}` there;
+   witness kept in corpus/C19). *)
 Theorem C19_exit0_one_object_else_none : forall eval m of stdin flags prog,
-  known_noscript_outfile m of = false ->
   let r := cli_run eval m of stdin flags prog in
   (cr_exit r = Some 0 /\ exists o, one_object of r o) \/
   (cr_exit r <> Some 0 /\ no_object r).
 Proof. exact exit0_one_object_else_none. Qed.
 Check C19_exit0_one_object_else_none : forall eval m of stdin flags prog,
-  known_noscript_outfile m of = false ->
   let r := cli_run eval m of stdin flags prog in
   (cr_exit r = Some 0 /\ exists o, one_object of r o) \/
   (cr_exit r <> Some 0 /\ no_object r).
 Print Assumptions C19_exit0_one_object_else_none.
-
-(* F34 (open known finding): without a script but with -o, `{}` is written to the file although
-   the exit is 1 — the statement without its exclusion is kept as a Definition and REFUTED by
-   the faithful model *)
-Definition C19_exit0_one_object_else_none_full : Prop :=
-  forall eval m of stdin flags prog,
-  let r := cli_run eval m of stdin flags prog in
-  (cr_exit r = Some 0 /\ exists o, one_object of r o) \/
-  (cr_exit r <> Some 0 /\ no_object r).
-Lemma C19_noscript_outfile_refuted : ~ C19_exit0_one_object_else_none_full.
-Proof.
-  intros H. specialize (H eval_release MNoScript true None [] None). cbv zeta in H.
-  destruct H as [[H _]|[_ [_ H]]]; vm_compute in H; discriminate.
-Qed.
-
-(* the statement for the driver as repaired by fixes/C19-no-output-file-on-error.diff: no exclusion *)
-Theorem C19_exit0_one_object_else_none_fixed34 : forall eval m of stdin flags prog,
-  let r := cli_run_fixed34 eval m of stdin flags prog in
-  (cr_exit r = Some 0 /\ exists o, one_object of r o) \/
-  (cr_exit r <> Some 0 /\ no_object r).
-Proof. exact exit0_one_object_else_none_fixed34. Qed.
-Check C19_exit0_one_object_else_none_fixed34 : forall eval m of stdin flags prog,
-  let r := cli_run_fixed34 eval m of stdin flags prog in
-  (cr_exit r = Some 0 /\ exists o, one_object of r o) \/
-  (cr_exit r <> Some 0 /\ no_object r).
-Print Assumptions C19_exit0_one_object_else_none_fixed34.
 
 (* Reading the inputs fails (exit 1 before anything is evaluated) exactly when one of the
    sources — stdin if consulted, then each --input — is not valid JSON. *)
@@ -91,10 +65,33 @@ Print Assumptions C19_bad_input_exits_1.
 (* ======================================================================================= *)
 (* the outputs object                                                                       *)
 (* ======================================================================================= *)
-(* On exit 0 the single object emitted is the outputs map of the final session; its keys are
-   the names declared with `output`, in the order of their FIRST declaration (re-declaring a name
-   keeps its position), without duplicates; and every key holds the value its name is bound to
-   (bindings never change: C03).  Exclusion: known finding F33 ([binding_decl]). *)
+(* On exit 0 the single object emitted is the outputs map of the final session and its keys are
+   the names declared with `output` — ALL of them (repo fix 91678e3 closed known finding F33:
+   `output constants` / `output inf` used to record nothing; witness kept in corpus/C19) — in the
+   order of their FIRST declaration (re-declaring a name keeps its position), without duplicates.
+   For every evaluator. *)
+Theorem C19_outputs_keys_in_declaration_order : forall eval m of stdin flags p,
+  cr_exit (cli_run eval m of stdin flags (Some p)) = Some 0 ->
+  exists inputs st,
+    read_inputs (stdin_for m stdin) flags = (Some inputs, st) /\
+    let final := fst (run eval (cli_session st inputs) p) in
+    one_object of (cli_run eval m of stdin flags (Some p)) (s_outputs final) /\
+    map fst (s_outputs final) = fold_left add_key (decl_names p) [] /\
+    NoDup (map fst (s_outputs final)).
+Proof. exact cli_outputs_keys. Qed.
+Check C19_outputs_keys_in_declaration_order : forall eval m of stdin flags p,
+  cr_exit (cli_run eval m of stdin flags (Some p)) = Some 0 ->
+  exists inputs st,
+    read_inputs (stdin_for m stdin) flags = (Some inputs, st) /\
+    let final := fst (run eval (cli_session st inputs) p) in
+    one_object of (cli_run eval m of stdin flags (Some p)) (s_outputs final) /\
+    map fst (s_outputs final) = fold_left add_key (decl_names p) [] /\
+    NoDup (map fst (s_outputs final)).
+Print Assumptions C19_outputs_keys_in_declaration_order.
+
+(* ... and when every declaration names a binding ([binding_decl]: not inf / infinity / constants,
+   which are values but not bindings), every key holds the value its name is bound to in the final
+   environment (bindings never change: C03). *)
 Theorem C19_outputs_in_declaration_order : forall release bi bu d m of stdin flags p,
   cr_exit (cli_run (evalD release bi bu d) m of stdin flags (Some p)) = Some 0 ->
   forallb binding_decl p = true ->
@@ -143,46 +140,11 @@ Check C19_output_value_at_declaration : forall release bi bu d m of stdin flags 
       = Some v.
 Print Assumptions C19_output_value_at_declaration.
 
-(* F33 (open known finding): `output constants` succeeds, the CLI exits 0, and the object is
-   empty although `constants` was declared — the keys statement without [binding_decl] is kept
-   as a Definition and REFUTED by the faithful model *)
-Definition C19_outputs_keys_full : Prop :=
-  forall m of stdin flags p o,
-  cr_exit (cli_run eval_release m of stdin flags (Some p)) = Some 0 ->
-  one_object of (cli_run eval_release m of stdin flags (Some p)) o ->
-  map fst o = fold_left add_key (decl_names p) [].
-Lemma C19_outputs_nonbinding_refuted : ~ C19_outputs_keys_full.
-Proof.
-  intros H. specialize (H MInline false None [] [SOut (EId "constants")] []).
-  assert (["constants"] = @nil string) as E; [|discriminate].
-  symmetry. apply H; vm_compute; auto.
-Qed.
-
-(* The repaired statement (fixes/C19-output-name-not-a-binding.diff): EVERY successful output
-   declaration — `output x`, `output x = e`, and `output <built-in>`, i.e. every shape the grammar
-   allows — records its name with the value the statement evaluated to; and on declarations of
-   bindings the repaired statement is exactly Program.exec_stmt, so nothing else changes. *)
-Theorem C19_fixed33_declaration_recorded : forall eval s e x,
-  is_rok (snd (exec_stmt_fixed33 eval s (SOut e))) = true -> decl_name_fixed33 e = Some x ->
-  exists v, fst (eval (s_cfg s) e) = Ok v /\
-    s_outputs (fst (exec_stmt_fixed33 eval s (SOut e))) = rec_insert (s_outputs s) x v /\
-    map fst (s_outputs (fst (exec_stmt_fixed33 eval s (SOut e)))) = add_key (map fst (s_outputs s)) x.
-Proof. exact exec_stmt_fixed33_records. Qed.
-Check C19_fixed33_declaration_recorded : forall eval s e x,
-  is_rok (snd (exec_stmt_fixed33 eval s (SOut e))) = true -> decl_name_fixed33 e = Some x ->
-  exists v, fst (eval (s_cfg s) e) = Ok v /\
-    s_outputs (fst (exec_stmt_fixed33 eval s (SOut e))) = rec_insert (s_outputs s) x v /\
-    map fst (s_outputs (fst (exec_stmt_fixed33 eval s (SOut e)))) = add_key (map fst (s_outputs s)) x.
-Print Assumptions C19_fixed33_declaration_recorded.
-
-Theorem C19_fixed33_agrees_on_bindings : forall release bi bu d s t,
-  binding_decl t = true -> is_rok (snd (exec_stmt (evalD release bi bu d) s t)) = true ->
-  exec_stmt_fixed33 (evalD release bi bu d) s t = exec_stmt (evalD release bi bu d) s t.
-Proof. exact evalD_fixed33_agrees. Qed.
-Check C19_fixed33_agrees_on_bindings : forall release bi bu d s t,
-  binding_decl t = true -> is_rok (snd (exec_stmt (evalD release bi bu d) s t)) = true ->
-  exec_stmt_fixed33 (evalD release bi bu d) s t = exec_stmt (evalD release bi bu d) s t.
-Print Assumptions C19_fixed33_agrees_on_bindings.
+(* the former F33 witness, now recorded: `output constants` yields the key `constants` *)
+Example C19_ex_output_constants :
+  let r := cli_run eval_release MInline false None [] (Some [SOut (EId "constants")]) in
+  cr_exit r = Some 0 /\ option_map (map fst) (cr_stdout r) = Some ["constants"].
+Proof. vm_compute. split; reflexivity. Qed.
 
 (* the hypotheses are satisfiable: a script with a re-declaration *)
 Definition n (z : Z) : expr := ENum (num_of_Z z).
